@@ -648,6 +648,9 @@ int EGLPNUM_TYPENAME_ILLsimplex_solution (
 		{
 			EG_RETURN (1);
 		}
+		/* partial pricing only maintains the reduced costs of its candidate
+		 * columns, recompute them all from the current duals */
+		EGLPNUM_TYPENAME_ILLfct_compute_dz (lp);
 		for (i = 0; i < lp->nrows; i++)
 			EGLPNUM_TYPENAME_EGlpNumZero (dz[lp->baz[i]]);
 		for (j = 0; j < lp->nnbasic; j++)
